@@ -426,6 +426,16 @@ func flagSymbols(d *model.Def, v *value.Value) ([]string, bool) {
 	return syms, rem == 0
 }
 
+// flagsComposite: some member of the flags type is not a single bit (and not zero).
+func flagsComposite(d *model.Def) bool {
+	for _, ev := range d.Values {
+		if b := evBits(ev); b&(b-1) != 0 {
+			return true
+		}
+	}
+	return false
+}
+
 // EmitProtocol writes a complete NDJSON stream: header line, then one line per value.
 func EmitProtocol(env *model.Env, proto *model.Def, schema string, steps []value.StepValues) string {
 	var b strings.Builder
@@ -660,23 +670,70 @@ func Match(env *model.Env, t *model.Type, v *value.Value, got any) error {
 			}
 			return matchInt(v, got)
 		case model.DFlags:
-			if syms, ok := flagSymbols(d, v); ok {
-				a, isArr := got.([]any)
-				if !isArr {
-					return fmt.Errorf("flags %s value %s must be an array of symbols %v, got %s", d.Name, v, syms, show(got))
+			syms, ok := flagSymbols(d, v)
+			if !flagsComposite(d) {
+				if ok {
+					a, isArr := got.([]any)
+					if !isArr {
+						return fmt.Errorf("flags %s value %s must be an array of symbols %v, got %s", d.Name, v, syms, show(got))
+					}
+					var gs []string
+					for _, x := range a {
+						s, _ := x.(string)
+						gs = append(gs, s)
+					}
+					sort.Strings(gs)
+					ws := append([]string{}, syms...)
+					sort.Strings(ws)
+					if strings.Join(gs, ",") != strings.Join(ws, ",") {
+						return fmt.Errorf("flags %s value %s: expected symbols %v, got %s", d.Name, v, syms, show(got))
+					}
+					return nil
 				}
-				var gs []string
+				return matchInt(v, got)
+			}
+			// a type with a member that is not a single bit: "an array of the symbolic values that are
+			// set" admits several arrays (read|write as [read, write] or [readWrite]). Accepted: any array of
+			// declared symbols that are all set in the value and together make up exactly the value. The
+			// integer is required when the symbols that are set do not make up the value, and an array when
+			// taking the members in declaration order does; in between (a cover exists, but not that way)
+			// the document does not decide and both forms are accepted.
+			bits := flagBits(v)
+			var cover uint64
+			for _, ev := range d.Values {
+				if b := evBits(ev); b != 0 && bits&b == b {
+					cover |= b
+				}
+			}
+			if a, isArr := got.([]any); isArr {
+				if cover != bits && bits != 0 {
+					return fmt.Errorf("flags %s value %s is outside the defined values (the members that are set make up %d) and must be written as the integer, got %s", d.Name, v, cover, show(got))
+				}
+				var or uint64
 				for _, x := range a {
 					s, _ := x.(string)
-					gs = append(gs, s)
+					found := false
+					for _, ev := range d.Values {
+						if ev.Symbol == s {
+							found = true
+							b := evBits(ev)
+							if bits&b != b {
+								return fmt.Errorf("flags %s value %s: symbol %q is not set in the value, got %s", d.Name, v, s, show(got))
+							}
+							or |= b
+						}
+					}
+					if !found {
+						return fmt.Errorf("flags %s value %s: %s is not a declared symbol, got %s", d.Name, v, show(x), show(got))
+					}
 				}
-				sort.Strings(gs)
-				ws := append([]string{}, syms...)
-				sort.Strings(ws)
-				if strings.Join(gs, ",") != strings.Join(ws, ",") {
-					return fmt.Errorf("flags %s value %s: expected symbols %v, got %s", d.Name, v, syms, show(got))
+				if or != bits {
+					return fmt.Errorf("flags %s value %s: the symbols written make up %d, got %s", d.Name, v, or, show(got))
 				}
 				return nil
+			}
+			if ok {
+				return fmt.Errorf("flags %s value %s must be an array of symbols (e.g. %v), got %s", d.Name, v, syms, show(got))
 			}
 			return matchInt(v, got)
 		}
